@@ -373,11 +373,19 @@ def e9(rep, w, prop='C05'):
         if f.crate is not w.yarel:
             continue
         writes = []
+        org9 = None
         for bi in f.normal_blocks():
             for s_ in f.blocks[bi]['s']:
                 d = s_.get('d') or {}
                 if '*' in d.get('p', []):
-                    writes.append('store through a reference')
+                    # a store into memory this call has just allocated for itself (the box behind vec![..], a local work list) is not state
+                    if org9 is None:
+                        org9 = origins(f)
+                    roots = [q[0] for q in org9.get(d['l'], ())]
+                    fresh = roots and all(q0[0] == 'local' or (q0[0] == 'call' and strip_generics(q0[2]).rsplit('::', 1)[-1] in
+                                          ('exchange_malloc', 'box_new', 'new', 'new_uninit', 'with_capacity', 'box_assume_init_into_vec_unsafe', 'write_box_via_move')) for q0 in roots)
+                    if not fresh:
+                        writes.append('store through a reference')
         for bi, t in f.calls():
             n = strip_generics(callee_name(t) or '')
             if n.startswith(('std::cell::Cell::set', 'std::cell::Cell::replace', 'std::cell::Cell::take', 'std::cell::RefCell::borrow_mut', 'std::cell::RefCell::replace', 'std::mem::replace', 'std::mem::swap')):
